@@ -409,6 +409,12 @@ class MarkdownNormalizer(Renderer):
                 # within a quote block it would be the secondary prefix, like `> `.
                 result += self._second_prefix.strip() + "\n"
 
+        if not element.children:
+            # An empty item still needs its marker line, or the item disappears.
+            result += self._prefix.rstrip() + "\n"
+            self._prefix = self._second_prefix
+            return result
+
         result += self.render_children(element)
 
         return result
